@@ -161,6 +161,9 @@ type Options struct {
 	// (kept from the previous execution or made with New), so "recycled" answers are
 	// available from the first Get on and executions start from the same pool state.
 	PoolPrefill int
+	// ColdOnces: every sync.Once of the instrumented package that has run is reset before
+	// the execution starts, so process-wide lazy initialisation happens again (cold start).
+	ColdOnces bool
 	// Families: the threads started by the main thread and all their descendants form one
 	// family each. Operations on objects only one family has touched are not scheduling
 	// points, scheduling inside a family is deterministic (lowest id first), and the
@@ -186,6 +189,11 @@ func Run(ch Chooser, o Options, body func()) Result {
 		s.gomax = 4
 	}
 	s.res.MaxQueued = map[int]int{}
+	if o.ColdOnces {
+		for _, om := range allOnces {
+			om.done, om.running = false, false
+		}
+	}
 	epoch++
 	s.epoch = epoch
 	active = s
@@ -1048,11 +1056,20 @@ func (m *MutexModel) RUnlock() { m.readers-- }
 type OnceModel struct {
 	done    bool
 	running bool
+	known   bool
 }
+
+// allOnces: every Once that was ever used (they guard process-wide state and live for the
+// whole process); only touched while the scheduler lock is held or outside any execution.
+var allOnces []*OnceModel
 
 // (a Once is always treated as shared: it guards process-wide initialisation)
 
 func (o *OnceModel) Do(f func()) {
+	if !o.known {
+		o.known = true
+		allOnces = append(allOnces, o)
+	}
 	s, t := cur()
 	if s == nil {
 		if !o.done {
